@@ -77,15 +77,15 @@ theorem locks_released_or_rollback_left_early (cfg : Cfg) (o : Option Nat) (body
   unfold OwnUnlockFailed RollbackLeftEarly LapsesWithin
   rw [runBlockOn_world cfg o body w h hidle] at he ⊢
   -- the invariant holds when the body starts, hence when it ends (normally or not)
-  have hI0 : LockInv cfg.timeout (enteredOn o w) :=
-    ⟨⟨[]⟩, enteredOn_ctx o w h, fun b lk e he hme => by
+  have hI0 : LockInv cfg w.counter (enteredOn o w) :=
+    ⟨Nat.le_of_eq (enterOn_counter o w).symm, ⟨[]⟩, enteredOn_ctx o w h, fun b lk e he hme => by
       rw [enteredOn_locks] at he; have := hm _ _ he; rw [hme] at this; cases this⟩
-  have hI := runBody_RI cfg body (enteredOn o w) hI0
-  have hcnt : w.counter ≤ (runBody cfg body (enteredOn o w)).2.counter := (runBody_outer cfg o body w h).2.2.1
+  have hI := runBody_RI cfg w.counter body (enteredOn o w) hI0
+  have hcnt : w.counter ≤ (runBody cfg body (enteredOn o w)).2.counter := (runBody_outerK cfg o body w h).2.2
   generalize (runBody cfg body (enteredOn o w)).2 = w2 at hI hcnt he ⊢
   generalize (!(runBody cfg body (enteredOn o w)).1.isOk) = exc at he ⊢
-  obtain ⟨tx, hctx, hinv⟩ := hI
-  have hcov : Covered cfg w.counter tx.backs w2 := fun b lk e he hme => Or.inl (hinv b lk e he hme).1
+  obtain ⟨_, tx, hctx, hinv⟩ := hI
+  have hcov : Covered cfg w.counter tx.backs w2 := fun b lk e he hme => (hinv b lk e he hme).1
   -- `__aexit__`: commit or rollback over all wrapped backends, then `close()` (which touches the context only)
   have key : ∀ w3, RExit w2 w3 → Covered cfg w.counter [] w3 →
       alLookup w3.locks (b, lk) = some e →
@@ -188,19 +188,19 @@ theorem no_lock_left_without_unlock_fault (cfg : Cfg) (o : Option Nat) (body : L
 /-- a body that raised — a failing command, `LockedError`, or its own exception — **applies none of the
 transaction's writes**: the data of every backend is exactly what it was before the block (whatever else fails
 during the rollback). -/
-theorem failed_body_applies_nothing (cfg : Cfg) (o : Option Nat) (body : List BodyCmd) (w : FWorld) (h : w.ctx = none) (hidle : ObjIdle w o)
+theorem failed_body_applies_nothing (cfg : Cfg) (o : Option Nat) (body : List BodyCmd) (w : FWorld) (h : w.ctx = none) (hidle : ObjIdle w o) (hnc : hasCommitL body = false)
     (hb : (runBody cfg body (enteredOn o w)).1.isOk = false) :
     (runBlockOn cfg o body w).2.data = w.data := by
   rw [runBlockOn_world cfg o body w h hidle, hb]
-  exact ((aexitOn_exc_RBody cfg o _).2.1).trans (runBody_outer cfg o body w h).2.2.2.1
+  exact ((aexitOn_exc_RBody cfg o _).2.1).trans (runBody_outer cfg o body w h hnc).2.1
 
 /-- **A failure inside the body applies none of the transaction's writes**: if any backend command issued by
 the body is made to fail (index between the block's first command and the body's last), the data of every
 backend after the block is what it was before — for every fault oracle, whatever else fails afterwards. -/
-theorem body_fault_applies_nothing (cfg : Cfg) (o : Option Nat) (body : List BodyCmd) (w : FWorld) (h : w.ctx = none) (hidle : ObjIdle w o)
+theorem body_fault_applies_nothing (cfg : Cfg) (o : Option Nat) (body : List BodyCmd) (w : FWorld) (h : w.ctx = none) (hidle : ObjIdle w o) (hnc : hasCommitL body = false)
     (hf : ∃ i, w.counter ≤ i ∧ i < (runBody cfg body (enteredOn o w)).2.counter ∧ cfg.fails i = true) :
     (runBlockOn cfg o body w).2.data = w.data := by
-  apply failed_body_applies_nothing cfg o body w h hidle
+  apply failed_body_applies_nothing cfg o body w h hidle hnc
   cases hok : (runBody cfg body (enteredOn o w)).1.isOk with
   | false => rfl
   | true =>
@@ -227,10 +227,10 @@ theorem readOrLock_of_noData (c : BCmd) (h : c.noData) : ReadOrLock c := by
 not), `incr`, `delete`, `set_many`, `delete_many`, `expire` — and whatever fails, the only commands that reach a backend
 before `__aexit__` are reads (`get`, `exists`) and `set_lock`s.  In particular `expire` of a key the transaction has not
 written reads the value and buffers it with the new TTL; it does not send `expire` to the store (seeded change C16-8). -/
-theorem body_sends_no_write (cfg : Cfg) (o : Option Nat) (body : List BodyCmd) (w : FWorld) (h : w.ctx = none) :
+theorem body_sends_no_write (cfg : Cfg) (o : Option Nat) (body : List BodyCmd) (w : FWorld) (h : w.ctx = none) (hnc : hasCommitL body = false) :
     ∀ ev, ev ∈ (runBody cfg body (enteredOn o w)).2.log → ev ∈ w.log ∨ ReadOrLock ev.cmd := by
   intro ev hev
-  rcases (runBody_outer cfg o body w h).2.2.2.2 ev hev with h' | h'
+  rcases (runBody_outer cfg o body w h hnc).2.2 ev hev with h' | h'
   · exact Or.inl h'
   · exact Or.inr (readOrLock_of_noData _ h')
 
@@ -238,13 +238,13 @@ theorem body_sends_no_write (cfg : Cfg) (o : Option Nat) (body : List BodyCmd) (
 command it logged is a read, a `set_lock` or an `unlock`.  This is "a failure inside the body applies none of the
 transaction's writes" at the level of the command trace; unlike `failed_body_applies_nothing` it does not depend on the
 reading "a failing command has no effect on the backend". -/
-theorem failed_body_sends_no_write (cfg : Cfg) (o : Option Nat) (body : List BodyCmd) (w : FWorld) (h : w.ctx = none) (hidle : ObjIdle w o)
+theorem failed_body_sends_no_write (cfg : Cfg) (o : Option Nat) (body : List BodyCmd) (w : FWorld) (h : w.ctx = none) (hidle : ObjIdle w o) (hnc : hasCommitL body = false)
     (hb : (runBody cfg body (enteredOn o w)).1.isOk = false) :
     ∀ ev, ev ∈ (runBlockOn cfg o body w).2.log → ev ∈ w.log ∨ ReadOrLock ev.cmd := by
   intro ev hev
   rw [runBlockOn_world cfg o body w h hidle, hb] at hev
   rcases (aexitOn_exc_RBody cfg o _).2.2 ev hev with h1 | h1
-  · rcases (runBody_outer cfg o body w h).2.2.2.2 ev h1 with h2 | h2
+  · rcases (runBody_outer cfg o body w h hnc).2.2 ev h1 with h2 | h2
     · exact Or.inl h2
     · exact Or.inr (readOrLock_of_noData _ h2)
   · exact Or.inr (readOrLock_of_noData _ h1)
@@ -253,21 +253,21 @@ theorem failed_body_sends_no_write (cfg : Cfg) (o : Option Nat) (body : List Bod
 — the same value and the same deadline (a TTL changed by `expire`, by a `set`/`incr` with a ttl or by a conditional `set`
 inside the failed body is not applied either) — so at every later instant `t` the store shows what it would have shown
 had the block never run. -/
-theorem failed_body_keeps_values_and_deadlines (cfg : Cfg) (o : Option Nat) (body : List BodyCmd) (w : FWorld) (h : w.ctx = none) (hidle : ObjIdle w o)
+theorem failed_body_keeps_values_and_deadlines (cfg : Cfg) (o : Option Nat) (body : List BodyCmd) (w : FWorld) (h : w.ctx = none) (hidle : ObjIdle w o) (hnc : hasCommitL body = false)
     (hb : (runBody cfg body (enteredOn o w)).1.isOk = false) (b k : Nat) :
     alLookup (runBlockOn cfg o body w).2.data (b, k) = alLookup w.data (b, k) ∧
     ∀ t, entryView { (runBlockOn cfg o body w).2 with now := t } b k = entryView { w with now := t } b k := by
-  have hd := failed_body_applies_nothing cfg o body w h hidle hb
+  have hd := failed_body_applies_nothing cfg o body w h hidle hnc hb
   refine ⟨by rw [hd], fun t => ?_⟩
   unfold entryView
   simp only [hd]
 
 /-- the same for a body in which a backend command was made to fail (the premise of `body_fault_applies_nothing`) -/
-theorem body_fault_keeps_values_and_deadlines (cfg : Cfg) (o : Option Nat) (body : List BodyCmd) (w : FWorld) (h : w.ctx = none) (hidle : ObjIdle w o)
+theorem body_fault_keeps_values_and_deadlines (cfg : Cfg) (o : Option Nat) (body : List BodyCmd) (w : FWorld) (h : w.ctx = none) (hidle : ObjIdle w o) (hnc : hasCommitL body = false)
     (hf : ∃ i, w.counter ≤ i ∧ i < (runBody cfg body (enteredOn o w)).2.counter ∧ cfg.fails i = true) (b k : Nat) :
     alLookup (runBlockOn cfg o body w).2.data (b, k) = alLookup w.data (b, k) ∧
     ∀ t, entryView { (runBlockOn cfg o body w).2 with now := t } b k = entryView { w with now := t } b k := by
-  apply failed_body_keeps_values_and_deadlines cfg o body w h hidle
+  apply failed_body_keeps_values_and_deadlines cfg o body w h hidle hnc
   cases hok : (runBody cfg body (enteredOn o w)).1.isOk with
   | false => rfl
   | true =>
@@ -285,12 +285,12 @@ transaction afterwards (nothing was committed, rolled back or closed), every con
 (Seeded change C16-10: an `__aexit__` that recognised "inner" by `self._tx is not self.current_tx` committed and closed
 here when the object was that of the outermost block.) -/
 theorem nested_block_leaves_transaction_open (cfg : Cfg) (o : Option Nat) (inner : List BodyCmd) (w : FWorld)
-    (hs : w.ctx.isSome = true) :
+    (hs : w.ctx.isSome = true) (hnc : hasCommitL inner = false) :
     (bodyStep cfg (.block o inner) w).2.ctx.isSome = true ∧
     (∀ i, objOf (bodyStep cfg (.block o inner) w).2 i = objOf w i) ∧
     (bodyStep cfg (.block o inner) w).2.data = w.data ∧
     ∀ ev, ev ∈ (bodyStep cfg (.block o inner) w).2.log → ev ∈ w.log ∨ ReadOrLock ev.cmd := by
-  obtain ⟨a, b, _, c, d⟩ := bodyStep_RIn cfg (.block o inner) w hs
+  obtain ⟨a, b, _, c, d⟩ := bodyStep_RIn cfg (.block o inner) (by simpa [BodyCmd.hasCommit] using hnc) w hs
   refine ⟨a, b, c, fun ev hev => ?_⟩
   rcases d ev hev with h' | h'
   · exact Or.inl h'
@@ -303,7 +303,7 @@ inner block included. -/
 theorem body_ends_inside_its_transaction (cfg : Cfg) (o : Option Nat) (body : List BodyCmd) (w : FWorld) (h : w.ctx = none) :
     (runBody cfg body (enteredOn o w)).2.ctx.isSome = true ∧
     ∀ i, objOf (runBody cfg body (enteredOn o w)).2 i = objOf (enteredOn o w) i :=
-  ⟨(runBody_outer cfg o body w h).1, (runBody_outer cfg o body w h).2.1⟩
+  ⟨(runBody_outerK cfg o body w h).1, (runBody_outerK cfg o body w h).2.1⟩
 
 /-- **The block object can be used again** (`async with tx: …` … later `async with tx: …`, sequentially): once the outermost
 block of object `o` has been left — whatever failed — the task is outside any transaction, `o` is as constructed (`_tx` =
@@ -316,6 +316,61 @@ theorem block_object_idle_after_exit (cfg : Cfg) (o : Option Nat) (body : List B
   refine ⟨ctx_reset_after_exit cfg o body w h hidle, fun i hi => ?_, runBlockOn_objs cfg o body w h hidle⟩
   rw [runBlockOn_objs cfg o body w h hidle i, if_pos hi]
   exact hidle i hi
+
+/-- **With explicit `tx.commit()` calls in the body: a failure applies nothing of what was written since the last of them.**
+The body is `b1 ++ b2`; `b1` is arbitrary (explicit commits and rollbacks, nested blocks) and ran to its end; `b2` contains no
+`tx.commit()` at any depth (explicit `tx.rollback()`s and nested blocks are fine) and the body failed in it — a failing backend
+command, `LockedError`, its own exception.  Then the data of every backend after the block is what it was when `b1` ended:
+every command after the last explicit commit went to the buffer — not to the store (seeded change C16-14) — and the buffer
+was dropped.  (What `b1` committed stays, of course: that is what an explicit commit is.) -/
+theorem failure_applies_nothing_since_last_commit (cfg : Cfg) (o : Option Nat) (b1 b2 : List BodyCmd) (w : FWorld)
+    (h : w.ctx = none) (hidle : ObjIdle w o) (hnc : hasCommitL b2 = false)
+    (h1 : (runBody cfg b1 (enteredOn o w)).1.isOk = true)
+    (hb : (runBody cfg (b1 ++ b2) (enteredOn o w)).1.isOk = false) :
+    (runBlockOn cfg o (b1 ++ b2) w).2.data = (runBody cfg b1 (enteredOn o w)).2.data := by
+  rw [runBlockOn_world cfg o (b1 ++ b2) w h hidle, hb]
+  refine ((aexitOn_exc_RBody cfg o _).2.1).trans ?_
+  rw [runBody_append]
+  have hs1 := (runBody_outerK cfg o b1 w h).1
+  generalize runBody cfg b1 (enteredOn o w) = p at h1 hs1
+  obtain ⟨r, w1⟩ := p
+  cases r with
+  | err e => simp [Res.isOk] at h1
+  | ok a => exact ((runBody_RIn cfg b2 hnc w1 hs1).2.2).2.1
+
+/-- … and it sends no write to a backend after the last explicit commit: every command logged after `b1` ended is a read, a
+`set_lock` or an `unlock` -/
+theorem failure_sends_no_write_since_last_commit (cfg : Cfg) (o : Option Nat) (b1 b2 : List BodyCmd) (w : FWorld)
+    (h : w.ctx = none) (hidle : ObjIdle w o) (hnc : hasCommitL b2 = false)
+    (h1 : (runBody cfg b1 (enteredOn o w)).1.isOk = true)
+    (hb : (runBody cfg (b1 ++ b2) (enteredOn o w)).1.isOk = false) :
+    ∀ ev, ev ∈ (runBlockOn cfg o (b1 ++ b2) w).2.log → ev ∈ (runBody cfg b1 (enteredOn o w)).2.log ∨ ReadOrLock ev.cmd := by
+  intro ev hev
+  rw [runBlockOn_world cfg o (b1 ++ b2) w h hidle, hb] at hev
+  rcases (aexitOn_exc_RBody cfg o _).2.2 ev hev with h2 | h2
+  · rw [runBody_append] at h2
+    have hs1 := (runBody_outerK cfg o b1 w h).1
+    generalize runBody cfg b1 (enteredOn o w) = p at h1 hs1 h2 ⊢
+    obtain ⟨r, w1⟩ := p
+    cases r with
+    | err e => simp [Res.isOk] at h1
+    | ok a =>
+      rcases ((runBody_RIn cfg b2 hnc w1 hs1).2.2).2.2 ev h2 with h3 | h3
+      · exact Or.inl h3
+      · exact Or.inr (readOrLock_of_noData _ h3)
+  · exact Or.inr (readOrLock_of_noData _ h2)
+
+/-- **An explicit `tx.commit()` / `tx.rollback()` does not end the transaction**: for EVERY body (explicit commits and
+rollbacks, nested blocks on any object, any faults) the task is still inside the transaction when the body ends and the block
+object is as `__aenter__` left it — the commands after an explicit commit / rollback are buffered again, take locks again, and
+the outermost `__aexit__` commits or rolls THEM back and releases THEIR locks (`locks_released_or_self_failed` holds for
+bodies with explicit commits and rollbacks: seeded change C16-13). -/
+theorem explicit_commit_or_rollback_keeps_the_transaction_open (cfg : Cfg) (w : FWorld) (hs : w.ctx.isSome = true) :
+    (bodyStep cfg .commit w).2.ctx.isSome = true ∧ (bodyStep cfg .rollback w).2.ctx.isSome = true ∧
+    (∀ i, objOf (bodyStep cfg .commit w).2 i = objOf w i) ∧ (∀ i, objOf (bodyStep cfg .rollback w).2 i = objOf w i) := by
+  obtain ⟨a, b, _⟩ := bodyStep_RInK cfg .commit w hs
+  obtain ⟨a', b', _⟩ := bodyStep_RInK cfg .rollback w hs
+  exact ⟨a, a', b, b'⟩
 
 /-- **A failure is never silent**: if the block returns normally, no backend command issued by it — in the body,
 in commit, or while unlocking — was made to fail.  (Contrapositive: any fault reaches the caller as an exception;
@@ -565,6 +620,39 @@ example :
     (let r := runBlock (demoCfg []) body demoWorld
      (match r.1 with | .err .body => true | _ => false) = true ∧ r.2.locks = [] ∧ r.2.ctx = none ∧ objOf r.2 0 = ⟨false, 0⟩) := by
   decide +kernel
+
+/-! #### explicit `await tx.rollback()` / `await tx.commit()` in the middle of the body -/
+
+/-- the witness of the class of seeded change C16-13: a write, an explicit rollback (commands 0-1: lock, unlock), another write
+on the same backend (command 2: a NEW lock), then the body fails (command 3, a read): the rollback of `__aexit__` releases the
+new lock (command 4), nothing is applied, the task is out of the transaction -/
+example :
+    let r := runBlock (demoCfg [3]) [.set 0 0 1 none, .rollback, .set 0 1 2 none, .get 0 3] demoWorld
+    (match r.1 with | .err (.fault 3 .exception) => true | _ => false) = true ∧ r.2.locks = [] ∧ r.2.ctx = none ∧
+    r.2.data = demoWorld.data ∧
+    r.2.log.map (·.cmd) = [.setLock 1 16, .unlock 1, .setLock 2 16, .get 3, .unlock 2] := by decide +kernel
+
+/-- the witness of the class of seeded change C16-14: an explicit commit (commands 0-2) applies the first write; the block goes
+on INSIDE the transaction: the second write is buffered and locks again (command 3); the body fails (command 4): premises of
+`failure_applies_nothing_since_last_commit` with `b1 = [set, commit]`; the store shows what the explicit commit applied and
+nothing else, no lock is left -/
+example :
+    let b1 : List BodyCmd := [.set 0 0 1 none, .commit]
+    let b2 : List BodyCmd := [.set 0 1 2 none, .get 0 3]
+    hasCommitL b2 = false ∧ (runBody (demoCfg [4]) b1 (entered demoWorld)).1.isOk = true ∧
+    (runBody (demoCfg [4]) (b1 ++ b2) (entered demoWorld)).1.isOk = false ∧
+    (let r := runBlock (demoCfg [4]) (b1 ++ b2) demoWorld
+     r.2.data = demoWorld.data ++ [((0, 0), ⟨1, none⟩)] ∧ r.2.data = (runBody (demoCfg [4]) b1 (entered demoWorld)).2.data ∧
+     r.2.locks = [] ∧ r.2.ctx = none ∧
+     r.2.log.map (·.cmd) = [.setLock 1 16, .setMany [(0, 1)] none, .unlock 1, .setLock 2 16, .get 3, .unlock 2]) := by
+  decide +kernel
+
+/-- an explicit rollback whose own unlock fails (command 1): the exception leaves the body, `__aexit__` rolls back with empty
+`_locks` — exactly that lock is left, with its lease, excused by its own failed unlock -/
+example :
+    let r := runBlock (demoCfg [1]) [.set 0 0 1 none, .rollback, .set 0 1 2 none] demoWorld
+    (match r.1 with | .err (.fault 1 .exception) => true | _ => false) = true ∧
+    r.2.locks = [((0, 1), ⟨true, some 16⟩)] ∧ r.2.counter = 2 ∧ r.2.ctx = none := by decide +kernel
 
 /-! #### failures of BaseException kind (`asyncio.CancelledError`: a command cut short by a time limit) -/
 
